@@ -175,6 +175,27 @@ def _(h):
     h.eq('from identity', base.trinterp2(None, T1, s), hom(h, rot2_ref(h, s * a1), s * t1), tol=1e-6, scale=sc)
 
 
+@claim('integer-typed-endpoints', values=True)
+def _(h):
+    """end poses supplied as integer-dtype arrays (quarter turns, integer translations): same interpolant as for the float
+    form of the same matrices -- the result must not inherit the integer storage of an argument"""
+    s = h.real('s', 0, 1)
+    E2i = np.array([[0, -1, 2], [1, 0, 4], [0, 0, 1]])
+    S2i = np.array([[1, 0, -3], [0, 1, 1], [0, 0, 1]])
+    E2f, S2f = E2i.astype(float), S2i.astype(float)
+    ref = hom(h, rot2_ref(h, s * (math.pi / 2)), h.arr([s * 2, s * 4]))
+    h.eq('trinterp2(None, int end, s)', base.trinterp2(None, E2i, s), ref, tol=1e-6, scale=30)
+    h.eq('trinterp2(int start, int end, s)', base.trinterp2(S2i, E2i, s), base.trinterp2(S2f, E2f, s), tol=1e-6, scale=30)
+    h.eq('SE2(int).interp(s)', SE2(E2i).interp(s).A, ref, tol=1e-6, scale=30)
+    h.eq('SO(2) int end', base.trinterp2(None, E2i[:2, :2], s), h.arr(rot2_ref(h, s * (math.pi / 2))), tol=1e-6)
+    E3i = np.array([[0, -1, 0, 2], [1, 0, 0, 4], [0, 0, 1, -5], [0, 0, 0, 1]])
+    S3i = np.array([[1, 0, 0, 1], [0, 1, 0, 1], [0, 0, 1, 1], [0, 0, 0, 1]])
+    h.eq('trinterp(None, int end, s)', base.trinterp(None, E3i, s), base.trinterp(None, E3i.astype(float), s), tol=1e-6, scale=50)
+    h.eq('trinterp(int start, int end, s)', base.trinterp(S3i, E3i, s), base.trinterp(S3i.astype(float), E3i.astype(float), s),
+         tol=1e-6, scale=50)
+    h.eq('SE3(int).interp(s) translation', SE3(E3i).interp(s).A[:3, 3], h.arr([s * 2, s * 4, s * -5]), tol=1e-6, scale=50)
+
+
 @claim('trinterp2-endpoints')
 def _(h):
     a0, a1 = h.angle('a0', -3.1, 3.1), h.angle('a1', -3.1, 3.1)
